@@ -16,7 +16,7 @@ ID = 'C05'
 LEVEL = 'exploration'
 RULE = ('Engine A: lattice of pre-test pairs (x, y): n in {4,5,6,8,12} x 5 control shapes x noise patterns (pairs with zero '
         'residual variance dropped by the reference model and counted) x n_test in {1,2,5} x sig in {0.8,0.9,0.95} x power '
-        'in {0.6,0.8,0.9} x flevel in {0.9,0.99} (quick: a 12-point parameter sub-grid), plus parameter objects that differ in fields the formula must ignore (n_pretest_max smaller than the series, iroas, rho_max, min_corr, n_designs, n_geos_max), plus PRESENTATIONS of the same numbers (integer-dtype y with half-integer x, integer x with half-integer y, both integer, lists, pandas Series). Oracle: (1) design-side required '
+        'in {0.6,0.8,0.9} x flevel in {0.9,0.99} (quick: a 12-point parameter sub-grid), plus parameter objects that differ in fields the formula must ignore (n_pretest_max smaller than the series, iroas, rho_max, min_corr, n_designs, n_geos_max), plus PRESENTATIONS of the same numbers (integer-dtype y with half-integer x, integer x with half-integer y, both integer, lists, pandas Series); on float arrays the caller OVERWRITES his own buffers after handing them in and before the first read. Oracle: (1) design-side required '
         'impact == closed form (t_sig + t_pow) * n_test * sigma * sqrt(phi (n+1)/(n n_test (n-1)) + 1/n + 1/n_test); (2) two '
         'real code paths against each other: an experiment frame whose test-period control mean is displaced by dx = '
         'sqrt(phi (n+1) Sxx / (n n_test (n-1))) and whose treatment shows exactly lift = required impact is analysed by '
@@ -97,6 +97,12 @@ def run_case(case):
     xp, yp = present(case, x, y)
     d = TBRMMDiagnostics(yp, par)
     d.x = xp
+    if isinstance(xp, np.ndarray) and isinstance(yp, np.ndarray) and case.get('pres') is None:
+        # caller-side action: the arrays handed in are the CALLER's work buffers, which he refills afterwards; the object
+        # must have taken the series it was given (x, y below stay the reference values)
+        x, y = xp.copy(), yp.copy()
+        xp[:] = xp[::-1] * 3.0 + 1.0
+        yp[:] = -7.0
     RI = d.required_impact
     viol = []
 
